@@ -26,6 +26,8 @@ def sort_of_desc(desc):
         return Z_STR, opt
     if base == 'seqint':
         return z3.SeqSort(Z_INT), opt
+    if base == 'arrint':
+        return z3.ArraySort(Z_INT, Z_INT), opt
     raise Unsupported('layout sort %s' % desc)
 
 
@@ -137,7 +139,7 @@ class HeapMixin:
             if str_kind(v) != {'hbytes': 'bytes', 'hstr': 'str'}.get(base, base):
                 raise Unsupported('wrong string kind stored: %r' % (v,))
             zv = to_zstr(v)
-        elif base == 'seqint':
+        elif base in ('seqint', 'arrint'):
             zv = v
         else:
             raise Unsupported('unwrap %s' % desc)
